@@ -54,11 +54,21 @@ type Env struct {
 	List  func(...interface{}) interface{}
 	Half  func(float64) float64
 	I64f  func(int64) int64 `verif:"I64"`
+	// identity at every other numeric kind: the only way an integer literal gets that kind (checker retyping)
+	K8   func(int8) int8
+	K16  func(int16) int16
+	K32  func(int32) int32
+	KU   func(uint) uint
+	KU8  func(uint8) uint8
+	KU16 func(uint16) uint16
+	KU32 func(uint32) uint32
+	KU64 func(uint64) uint64
+	KF32 func(float32) float32
 
 	log *CallLog
 }
 
-var envFnNames = []string{"Id", "Inc", "Add", "Cat", "IsPos", "Fail", "Fast", "Sum", "List", "Half", "I64f"}
+var envFnNames = []string{"Id", "Inc", "Add", "Cat", "IsPos", "Fail", "Fast", "Sum", "List", "Half", "I64f", "K8", "K16", "K32", "KU", "KU8", "KU16", "KU32", "KU64", "KF32"}
 
 func registerFn(name string, f interface{}) {
 	fnIDs[reflect.ValueOf(f).Pointer()] = name
@@ -111,6 +121,24 @@ func NewEnv(seed int, pick func(n int) int) *Env {
 	e.List = func(xs ...interface{}) interface{} { log.add("List", xs...); return xs } // keeps its argument slice
 	e.Half = func(x float64) float64 { log.add("Half", x); return x / 2 }
 	e.I64f = func(x int64) int64 { log.add("I64f", x); return x }
+	e.K8 = func(x int8) int8 { log.add("K8", x); return x }
+	e.K16 = func(x int16) int16 { log.add("K16", x); return x }
+	e.K32 = func(x int32) int32 { log.add("K32", x); return x }
+	e.KU = func(x uint) uint { log.add("KU", x); return x }
+	e.KU8 = func(x uint8) uint8 { log.add("KU8", x); return x }
+	e.KU16 = func(x uint16) uint16 { log.add("KU16", x); return x }
+	e.KU32 = func(x uint32) uint32 { log.add("KU32", x); return x }
+	e.KU64 = func(x uint64) uint64 { log.add("KU64", x); return x }
+	e.KF32 = func(x float32) float32 { log.add("KF32", x); return x }
+	registerFn("K8", e.K8)
+	registerFn("K16", e.K16)
+	registerFn("K32", e.K32)
+	registerFn("KU", e.KU)
+	registerFn("KU8", e.KU8)
+	registerFn("KU16", e.KU16)
+	registerFn("KU32", e.KU32)
+	registerFn("KU64", e.KU64)
+	registerFn("KF32", e.KF32)
 	registerFn("Id", e.Id)
 	registerFn("Inc", e.Inc)
 	registerFn("Add", e.Add)
